@@ -4,8 +4,15 @@ from .c09 import FC_TB, FC_ASSUME, _nontrivial
 PROPS = {"C10": dict(
     module="Proofs.Properties.C10",
     theorems=[
-        "Zrnt.Proofs.C10.updateJustified_returns",
+        "Zrnt.Proofs.C10.updateJustified_returns_partial",
+        "Zrnt.Proofs.C10.updateJustified_returns_false",
         "Zrnt.Proofs.C10.older_equal_noop",
+        "Zrnt.Proofs.C10.outside_subtree_refused_finalized",
+        "Zrnt.Proofs.C10.outside_subtree_refused_justified",
+        "Zrnt.Proofs.C10.prune_exact_false",
+        "Zrnt.Proofs.C10.prune_without_sink_false",
+        "Zrnt.Proofs.C10.post_prune_ops_total_false",
+        "Zrnt.Proofs.C10.no_panic_unpruned_partial",
     ],
     modes=[dict(name="fc10", stateful=True, max_shrinks=4,
                 nontrivial=_nontrivial(("justify", "nodes", "head", "just", "fin", "pinq", "block", "att", "slot")))],
